@@ -586,6 +586,10 @@ func (n *PathRecursiveNode) Index(_ int) (PathNode, bool, error) {
 }
 
 func valueToSliceValue(v interface{}) []interface{} {
+	if v == nil {
+		// nothing was selected below this member (or it is null)
+		return nil
+	}
 	rv := reflect.ValueOf(v)
 	ret := []interface{}{}
 	if rv.Type().Kind() == reflect.Slice || rv.Type().Kind() == reflect.Array {
